@@ -48,6 +48,14 @@ pub enum Ty {
     Enum(usize),
     /// error union `err!ok`
     Eu(Box<Ty>, Box<Ty>),
+    /// `^T` / `^mut T`
+    Ptr(bool, Box<Ty>),
+    /// `[]T`
+    Slice(Box<Ty>),
+    /// `(p0: T0, ..) -> R`: a function value (locals only)
+    FnPtr(Vec<Ty>, Box<Ty>),
+    /// `char` (8 bits, printed as the character)
+    Char,
 }
 
 impl Ty {
@@ -61,6 +69,10 @@ impl Ty {
             Ty::Struct(i) => qualify(false, *i, format!("S{i}")),
             Ty::Enum(i) => qualify_enum(*i, format!("E{i}")),
             Ty::Eu(e, o) => format!("{}!{}", e.capy(), o.capy()),
+            Ty::Ptr(m, t) => format!("^{}{}", if *m { "mut " } else { "" }, t.capy()),
+            Ty::Slice(t) => format!("[]{}", t.capy()),
+            Ty::FnPtr(ps, r) => format!("({}) -> {}", ps.iter().enumerate().map(|(i, t)| format!("p{}: {}", i, t.capy())).collect::<Vec<_>>().join(", "), r.capy()),
+            Ty::Char => "char".into(),
         }
     }
     pub fn sexp(&self) -> String {
@@ -73,6 +85,21 @@ impl Ty {
             Ty::Struct(i) => format!("(struct {i})"),
             Ty::Enum(i) => format!("(enum {i})"),
             Ty::Eu(e, o) => format!("(eu {} {})", e.sexp(), o.sexp()),
+            Ty::Ptr(m, t) => format!("(ptr {} {})", *m as u8, t.sexp()),
+            Ty::Slice(t) => format!("(slice {})", t.sexp()),
+            // never sent: function types occur only as annotations of `let`, which carries no type
+            Ty::FnPtr(..) => "void".into(),
+            Ty::Char => "char".into(),
+        }
+    }
+    /// the type holds an address somewhere (pointer, slice, or a struct / optional / array of such)
+    pub fn has_ptr(&self, structs: &[StructDef]) -> bool {
+        match self {
+            Ty::Ptr(..) | Ty::Slice(_) => true,
+            Ty::Arr(_, t) | Ty::Opt(t) => t.has_ptr(structs),
+            Ty::Eu(e, o) => e.has_ptr(structs) || o.has_ptr(structs),
+            Ty::Struct(i) => structs.get(*i).map(|d| d.fields.iter().any(|f| f.has_ptr(structs))).unwrap_or(false),
+            _ => false,
         }
     }
     pub fn is_int(&self) -> bool {
@@ -143,6 +170,22 @@ pub enum Expr {
     Try(Box<Expr>),
     /// `T.(e)` where `e` has a variant type whose payload is `T` (the value is unchanged)
     Coerce(Ty, Box<Expr>),
+    /// `^place` / `^mut place`
+    AddrOf(bool, Box<Place>),
+    /// `e^`
+    Deref(Box<Expr>),
+    /// the implicit `[N]T -> []T` conversion of an array place (printed as the place itself)
+    SliceOf(Box<Place>),
+    /// `e.len` (a `usize`)
+    Len(Box<Expr>),
+    /// `[N]T.(e)`: length, element type, the slice
+    SliceToArr(u32, Ty, Box<Expr>),
+    /// a named function as a value
+    FnRef(usize),
+    /// a call through a function value
+    CallV(Box<Expr>, Vec<Expr>),
+    /// `'c'` (letters and digits only)
+    CharLit(u8),
 }
 
 #[derive(Clone, Debug)]
@@ -150,6 +193,8 @@ pub enum Place {
     Var(usize),
     Index(Box<Place>, Box<Expr>),
     Field(Box<Place>, usize),
+    /// `e^` with `e` of type `^mut T`
+    Deref(Box<Expr>),
 }
 
 #[derive(Clone, Debug)]
@@ -196,6 +241,8 @@ pub struct Program {
     pub enums: Vec<EnumDef>,
     /// fns[0] is main
     pub fns: Vec<Fn>,
+    /// the generator placed a slice index that may be out of bounds at run time
+    pub slice_oob: bool,
 }
 
 // ---- S-expressions for the Lean interpreter -----------------------------------------------
@@ -237,6 +284,14 @@ impl Expr {
             Expr::EuUnwrap(b, _, a) => format!("(euunwrap {} {})", *b as u8, a.sexp()),
             Expr::Try(a) => format!("(try {})", a.sexp()),
             Expr::Coerce(_, a) => a.sexp(),
+            Expr::AddrOf(_, p) => format!("(addr {})", p.sexp_as_expr()),
+            Expr::Deref(a) => format!("(deref {})", a.sexp()),
+            Expr::SliceOf(p) => format!("(sliceof {})", p.sexp_as_expr()),
+            Expr::Len(a) => format!("(len {})", a.sexp()),
+            Expr::SliceToArr(n, _, a) => format!("(s2a {} {})", n, a.sexp()),
+            Expr::FnRef(f) => format!("(fnref {f})"),
+            Expr::CharLit(c) => format!("(clit {c})"),
+            Expr::CallV(c, args) => format!("(callv {} {})", c.sexp(), sx_list(&args.iter().map(|a| a.sexp()).collect::<Vec<_>>())),
         }
     }
 }
@@ -247,6 +302,30 @@ impl Place {
             Place::Var(x) => format!("(pvar {x})"),
             Place::Index(p, i) => format!("(pindex {} {})", p.sexp(), i.sexp()),
             Place::Field(p, k) => format!("(pfield {} {})", p.sexp(), k),
+            Place::Deref(e) => format!("(pderef {})", e.sexp()),
+        }
+    }
+    /// the same place in expression form (operand of `addr` / `sliceof`)
+    pub fn sexp_as_expr(&self) -> String {
+        match self {
+            Place::Var(x) => format!("(var {x})"),
+            Place::Index(p, i) => format!("(index {} {})", p.sexp_as_expr(), i.sexp()),
+            Place::Field(p, k) => format!("(field {} {})", p.sexp_as_expr(), k),
+            Place::Deref(e) => format!("(deref {})", e.sexp()),
+        }
+    }
+    pub fn root_var(&self) -> Option<usize> {
+        match self {
+            Place::Var(x) => Some(*x),
+            Place::Index(p, _) | Place::Field(p, _) => p.root_var(),
+            Place::Deref(_) => None,
+        }
+    }
+    pub fn through_deref(&self) -> bool {
+        match self {
+            Place::Var(_) => false,
+            Place::Index(p, _) | Place::Field(p, _) => p.through_deref(),
+            Place::Deref(_) => true,
         }
     }
 }
@@ -351,6 +430,30 @@ impl Expr {
             Expr::EuUnwrap(_, t, a) => format!("#unwrap({}, {})", a.capy(), t.capy()),
             Expr::Try(a) => format!("{}.try", a.capy()),
             Expr::Coerce(t, a) => format!("{}.({})", t.capy(), a.capy()),
+            // `^mut p^.f` parses as `(^mut p)^.f` (prefix `^` binds tighter than postfix `^`), and
+            // `^mut (p^.f)` takes the address of a *copy* (FINDINGS.md: addr-of-parenthesised-place):
+            // the place is spelled with auto-deref (`^mut p.f`), and `^mut p^` as `p` itself
+            // Since the fix of addr-of-parenthesised-place (`^mut (x)` used to take the address of a
+            // copy) a third of the operands are printed in the explicit, parenthesised form, chosen
+            // by the length of the spelling so that printing stays a function of the AST.
+            Expr::AddrOf(m, p) => {
+                let explicit = p.capy();
+                let paren = explicit.len() % 3 == 0;
+                match &**p {
+                    Place::Deref(e) if !paren => e.capy(),
+                    _ if paren => format!("^{}({})", if *m { "mut " } else { "" }, explicit),
+                    _ => format!("^{}{}", if *m { "mut " } else { "" }, p.capy_auto()),
+                }
+            }
+            // prefix operators bind tighter than the postfix `^` (`~p^` is `(~p)^`)
+            Expr::Deref(a) => format!("({}^)", a.capy()),
+            Expr::SliceOf(p) => p.capy(),
+            // `.len` is a `usize`; the fragment's index type is `u64`
+            Expr::Len(a) => format!("u64.({}.len)", a.capy()),
+            Expr::SliceToArr(n, t, a) => format!("[{}]{}.({})", n, t.capy(), a.capy()),
+            Expr::FnRef(f) => qualify(true, *f, format!("f{f}")),
+            Expr::CharLit(c) => format!("'{}'", *c as char),
+            Expr::CallV(c, args) => format!("{}({})", c.capy(), args.iter().map(|a| a.capy()).collect::<Vec<_>>().join(", ")),
         }
     }
 }
@@ -361,6 +464,22 @@ impl Place {
             Place::Var(x) => format!("v{x}"),
             Place::Index(p, i) => format!("{}[{}]", p.capy(), i.capy()),
             Place::Field(p, k) => format!("{}.m{}", p.capy(), k),
+            Place::Deref(e) => format!("{}^", e.capy()),
+        }
+    }
+    /// the place with the dereference under a field / index step left implicit (`p.f`, `p[i]`)
+    pub fn capy_auto(&self) -> String {
+        fn inner(p: &Place) -> String {
+            match p {
+                Place::Deref(e) => e.capy(),
+                _ => p.capy_auto(),
+            }
+        }
+        match self {
+            Place::Var(x) => format!("v{x}"),
+            Place::Index(p, i) => format!("{}[{}]", inner(p), i.capy()),
+            Place::Field(p, k) => format!("{}.m{}", inner(p), k),
+            Place::Deref(e) => format!("{}^", e.capy()),
         }
     }
 }
@@ -535,6 +654,307 @@ impl Program {
     }
 }
 
+// ---- visitors, static features -----------------------------------------------------------
+
+pub fn visit_expr(e: &Expr, f: &mut dyn FnMut(&Expr)) {
+    f(e);
+    match e {
+        Expr::Lit(..) | Expr::BLit(_) | Expr::Var(_) | Expr::Nil | Expr::FnRef(_) | Expr::CharLit(_) => {}
+        Expr::CallV(c, args) => {
+            visit_expr(c, f);
+            for a in args {
+                visit_expr(a, f);
+            }
+        }
+        Expr::Bin(_, _, a, b) | Expr::Cmp(_, _, a, b) | Expr::LAnd(a, b) | Expr::LOr(a, b) | Expr::Index(a, b) => {
+            visit_expr(a, f);
+            visit_expr(b, f);
+        }
+        Expr::LNot(a) | Expr::Neg(_, a) | Expr::BNot(_, a) | Expr::Cast(_, _, a) | Expr::Field(a, _) | Expr::SomeE(a)
+        | Expr::Unwrap(_, a) | Expr::IsSome(_, a) | Expr::IsVariant(_, _, a) | Expr::UnwrapVariant(_, _, a) | Expr::EuLit(_, a)
+        | Expr::EuIsOk(_, a) | Expr::EuUnwrap(_, _, a) | Expr::Try(a) | Expr::Coerce(_, a) | Expr::Deref(a) | Expr::Len(a)
+        | Expr::SliceToArr(_, _, a) => visit_expr(a, f),
+        Expr::VariantLit(_, _, pl) => {
+            if let Some(a) = pl {
+                visit_expr(a, f);
+            }
+        }
+        Expr::Call(_, args) | Expr::ArrLit(_, args) | Expr::StructLit(_, args) => {
+            for a in args {
+                visit_expr(a, f);
+            }
+        }
+        Expr::Ite(c, a, b) => {
+            visit_expr(c, f);
+            visit_expr(a, f);
+            visit_expr(b, f);
+        }
+        Expr::AddrOf(_, p) | Expr::SliceOf(p) => visit_place(p, f),
+    }
+}
+
+pub fn visit_place(p: &Place, f: &mut dyn FnMut(&Expr)) {
+    match p {
+        Place::Var(_) => {}
+        Place::Index(q, i) => {
+            visit_place(q, f);
+            visit_expr(i, f);
+        }
+        Place::Field(q, _) => visit_place(q, f),
+        Place::Deref(e) => visit_expr(e, f),
+    }
+}
+
+/// every statement (nested ones included), then every expression in it
+pub fn visit_stmts(ss: &[Stmt], fs: &mut dyn FnMut(&Stmt), fe: &mut dyn FnMut(&Expr)) {
+    for s in ss {
+        fs(s);
+        match s {
+            Stmt::Let(_, _, _, e) | Stmt::Print(e) | Stmt::ExprS(e) | Stmt::Ret(Some(e)) => visit_expr(e, fe),
+            Stmt::Assign(p, e) | Stmt::OpAssign(_, _, p, e) => {
+                visit_place(p, fe);
+                visit_expr(e, fe);
+            }
+            Stmt::If(c, a, b) => {
+                visit_expr(c, fe);
+                visit_stmts(a, fs, fe);
+                visit_stmts(b, fs, fe);
+            }
+            Stmt::While(_, c, b) => {
+                visit_expr(c, fe);
+                visit_stmts(b, fs, fe);
+            }
+            Stmt::Block(_, b) => visit_stmts(b, fs, fe),
+            Stmt::Switch(sc, _, _, arms, d) => {
+                visit_expr(sc, fe);
+                for (_, b) in arms {
+                    visit_stmts(b, fs, fe);
+                }
+                if let Some(b) = d {
+                    visit_stmts(b, fs, fe);
+                }
+            }
+            Stmt::Defer(s) => visit_stmts(std::slice::from_ref(&**s), fs, fe),
+            Stmt::Brk(_) | Stmt::Cont(_) | Stmt::Ret(None) | Stmt::Raw(_) => {}
+        }
+    }
+}
+
+fn place_has_call(p: &Place) -> bool {
+    let mut found = false;
+    visit_place(p, &mut |e| {
+        if matches!(e, Expr::Call(..)) {
+            found = true;
+        }
+    });
+    found
+}
+
+/// What a generated program uses of the addressable store (static, per program; used for the
+/// coverage counters of C01's evidence).
+#[derive(Clone, Debug, Default)]
+pub struct Features {
+    /// some `^place` / `^mut place`
+    pub pointers: bool,
+    /// an assignment whose destination goes through `p^`
+    pub ptr_write: bool,
+    /// a read `p^` / `p^.f` / `p^[i]`
+    pub ptr_read: bool,
+    /// a call with a pointer argument
+    pub ptr_arg: bool,
+    /// a function with a `^mut` parameter that writes through it
+    pub callee_writes: bool,
+    /// a variable is the target of `^mut` and is also accessed by name in the same function
+    pub alias_ptr_and_name: bool,
+    /// two `^mut` to (parts of) the same variable, or a `^mut` pointer variable copied
+    pub alias_two_ptrs: bool,
+    /// a pointer field in a struct literal / an optional pointer
+    pub ptr_in_struct: bool,
+    pub ptr_in_opt: bool,
+    /// some array -> slice conversion
+    pub slices: bool,
+    pub slice_read: bool,
+    pub slice_write: bool,
+    pub slice_arg: bool,
+    pub slice_len: bool,
+    /// an index into a slice that may be out of bounds at run time
+    pub slice_oob_possible: bool,
+    /// `[N]T.(slice)`
+    pub slice_to_array: bool,
+    /// a function stored in a local and called through it
+    pub fn_value_call: bool,
+    /// a function that calls itself (bounded by a counter parameter)
+    pub recursion: bool,
+    /// … passing a pointer to one of its own locals / parameters down
+    pub recursion_with_pointer: bool,
+    pub chars: bool,
+}
+
+impl Features {
+    pub fn labels(&self) -> Vec<&'static str> {
+        let mut v = vec![];
+        let mut add = |b: bool, l: &'static str| {
+            if b {
+                v.push(l)
+            }
+        };
+        add(self.pointers, "pointers");
+        add(self.ptr_write, "write-through-pointer");
+        add(self.ptr_read, "read-through-pointer");
+        add(self.ptr_arg, "pointer-argument");
+        add(self.callee_writes, "callee-writes-through-mut-parameter");
+        add(self.alias_ptr_and_name, "alias:pointer+name");
+        add(self.alias_two_ptrs, "alias:two-pointers");
+        add(self.ptr_in_struct, "pointer-in-struct");
+        add(self.ptr_in_opt, "pointer-in-optional");
+        add(self.slices, "slices");
+        add(self.slice_read, "slice-read");
+        add(self.slice_write, "write-through-slice");
+        add(self.slice_arg, "slice-argument");
+        add(self.slice_len, "slice-len");
+        add(self.slice_oob_possible, "slice-index-possibly-out-of-bounds");
+        add(self.slice_to_array, "slice-to-array-cast");
+        add(self.fn_value_call, "call-through-function-value");
+        add(self.recursion, "recursion");
+        add(self.recursion_with_pointer, "recursion-passing-pointer");
+        add(self.chars, "char");
+        v
+    }
+}
+
+impl Program {
+    pub fn features(&self) -> Features {
+        use std::collections::{HashMap, HashSet};
+        let mut ft = Features { slice_oob_possible: self.slice_oob, ..Default::default() };
+        for (fi, f) in self.fns.iter().enumerate() {
+            visit_stmts(&f.body, &mut |_| {}, &mut |e| match e {
+                Expr::Call(g, args) if *g == fi => {
+                    ft.recursion = true;
+                    if args.iter().any(|a| matches!(a, Expr::AddrOf(..))) {
+                        ft.recursion_with_pointer = true;
+                    }
+                }
+                Expr::CallV(..) => ft.fn_value_call = true,
+                Expr::CharLit(_) | Expr::Cast(_, Ty::Char, _) => ft.chars = true,
+                Expr::SliceToArr(..) => ft.slice_to_array = true,
+                _ => {}
+            });
+            // variable -> type, as declared in this function
+            let mut tys: HashMap<usize, Ty> = f.params.iter().cloned().collect();
+            visit_stmts(&f.body, &mut |s| {
+                if let Stmt::Let(x, t, _, _) = s {
+                    tys.insert(*x, t.clone());
+                }
+            }, &mut |_| {});
+            let is_slice_var = |e: &Expr| matches!(e, Expr::Var(x) if matches!(tys.get(x), Some(Ty::Slice(_))));
+            let mut mut_targets: HashMap<usize, usize> = HashMap::new();
+            let mut named: HashSet<usize> = HashSet::new();
+            let mut_params: HashSet<usize> = f.params.iter().filter(|p| matches!(p.1, Ty::Ptr(true, _))).map(|p| p.0).collect();
+            let mut stmt_facts: Vec<(bool, bool, Option<usize>, bool)> = vec![];
+            visit_stmts(
+                &f.body,
+                &mut |s| match s {
+                    Stmt::Assign(p, _) | Stmt::OpAssign(_, _, p, _) => {
+                        // (through deref, through slice, root variable, deref of a ^mut parameter)
+                        let mut q = p;
+                        let mut through_slice = false;
+                        let mut deref_param = false;
+                        loop {
+                            match q {
+                                Place::Index(inner, _) => {
+                                    if let Place::Var(x) = &**inner {
+                                        if matches!(tys.get(x), Some(Ty::Slice(_))) {
+                                            through_slice = true;
+                                        }
+                                    }
+                                    q = inner;
+                                }
+                                Place::Field(inner, _) => q = inner,
+                                Place::Deref(e) => {
+                                    if let Expr::Var(x) = &**e {
+                                        deref_param = mut_params.contains(x);
+                                    }
+                                    break;
+                                }
+                                Place::Var(_) => break,
+                            }
+                        }
+                        stmt_facts.push((p.through_deref(), through_slice, p.root_var(), deref_param));
+                    }
+                    Stmt::Let(_, Ty::Ptr(true, _), _, Expr::Var(_)) => ft.alias_two_ptrs = true,
+                    Stmt::Let(_, Ty::Opt(p), _, _) if matches!(**p, Ty::Ptr(..)) => ft.ptr_in_opt = true,
+                    _ => {}
+                },
+                &mut |_| {},
+            );
+            visit_stmts(
+                &f.body,
+                &mut |_| {},
+                &mut |e| match e {
+                    Expr::AddrOf(m, p) => {
+                        ft.pointers = true;
+                        if *m {
+                            if let Some(x) = p.root_var() {
+                                *mut_targets.entry(x).or_insert(0) += 1;
+                            }
+                        }
+                    }
+                    Expr::Deref(_) => ft.ptr_read = true,
+                    Expr::SliceOf(_) => ft.slices = true,
+                    Expr::Len(a) if is_slice_var(a) => ft.slice_len = true,
+                    Expr::Index(a, _) if is_slice_var(a) => ft.slice_read = true,
+                    Expr::Var(x) => {
+                        named.insert(*x);
+                    }
+                    Expr::Call(_, args) => {
+                        for a in args {
+                            match a {
+                                Expr::AddrOf(..) => ft.ptr_arg = true,
+                                Expr::SliceOf(_) => ft.slice_arg = true,
+                                Expr::Var(x) => match tys.get(x) {
+                                    Some(Ty::Ptr(..)) => ft.ptr_arg = true,
+                                    Some(Ty::Slice(_)) => ft.slice_arg = true,
+                                    _ => {}
+                                },
+                                _ => {}
+                            }
+                        }
+                    }
+                    Expr::StructLit(_, es) => {
+                        if es.iter().any(|e| matches!(e, Expr::AddrOf(..)) || matches!(e, Expr::Var(x) if matches!(tys.get(x), Some(Ty::Ptr(..))))) {
+                            ft.ptr_in_struct = true;
+                        }
+                    }
+                    _ => {}
+                },
+            );
+            for (through_deref, through_slice, root, deref_param) in stmt_facts {
+                if through_deref {
+                    ft.ptr_write = true;
+                }
+                if through_slice {
+                    ft.slice_write = true;
+                }
+                if deref_param {
+                    ft.callee_writes = true;
+                }
+                if let Some(x) = root {
+                    named.insert(x);
+                }
+            }
+            for (x, n) in &mut_targets {
+                if *n >= 2 {
+                    ft.alias_two_ptrs = true;
+                }
+                if named.contains(x) {
+                    ft.alias_ptr_and_name = true;
+                }
+            }
+        }
+        ft
+    }
+}
+
 // ---- generator ----------------------------------------------------------------------------
 
 #[derive(Clone)]
@@ -544,6 +964,20 @@ struct VarInfo {
     mutable: bool,
     /// loop counters must not be assigned by generated code
     reserved: bool,
+    /// block nesting depth of the declaration (parameters and function-level locals: 0). A
+    /// pointer stored in a variable of depth d only ever refers to variables of depth <= d, so no
+    /// pointer outlives the block of its pointee.
+    depth: u32,
+    /// slice variable through which elements may be written (mutable binding over a mutable array)
+    writable_slice: bool,
+    /// slice variable: every array it may refer to has at least this many elements
+    min_len: u32,
+    /// immutable slice binding made from an array of exactly this length
+    exact_len: Option<u32>,
+}
+
+fn vinfo(id: usize, ty: Ty, mutable: bool, reserved: bool, depth: u32) -> VarInfo {
+    VarInfo { id, ty, mutable, reserved, depth, writable_slice: false, min_len: 1, exact_len: None }
 }
 
 pub struct GenCfg {
@@ -552,11 +986,17 @@ pub struct GenCfg {
     pub max_depth: u32,
     /// allow expressions that may fault at run time (out-of-range index, wrong unwrap)
     pub faults: bool,
+    /// pointers and slices (`^T`, `^mut T`, `[]T`), function values
+    pub pointers: bool,
+    /// bounded self-recursion (a `u8` counter parameter)
+    pub recursion: bool,
+    /// the `char` type
+    pub chars: bool,
 }
 
 impl Default for GenCfg {
     fn default() -> Self {
-        GenCfg { max_fns: 4, max_stmts: 10, max_depth: 4, faults: true }
+        GenCfg { max_fns: 4, max_stmts: 10, max_depth: 4, faults: true, pointers: true, recursion: true, chars: true }
     }
 }
 
@@ -574,6 +1014,17 @@ struct Gen<'a> {
     labels: Vec<(usize, bool)>,
     ret_ty: Ty,
     fault_budget: u32,
+    /// structs without pointer fields (the only ones `any_ty` hands out)
+    plain_structs: Vec<usize>,
+    /// block depth of the statement list being generated
+    #[allow(dead_code)]
+    cur_depth: u32,
+    slice_oob: bool,
+    /// function index -> position of its recursion counter parameter
+    rec_param: std::collections::HashMap<usize, usize>,
+    /// the function being generated, if it may call itself: (index, parameter types, result, counter variable)
+    self_fn: Option<(usize, Vec<Ty>, Ty, usize)>,
+    self_called: bool,
 }
 
 const INT_TYS: [(bool, u32); 8] = [(true, 8), (true, 16), (true, 32), (true, 64), (false, 8), (false, 16), (false, 32), (false, 64)];
@@ -584,6 +1035,9 @@ impl<'a> Gen<'a> {
         Ty::Int(s, b)
     }
     fn scalar_ty(&mut self) -> Ty {
+        if self.cfg.chars && self.rng.chance(1, 45) {
+            return Ty::Char;
+        }
         if self.rng.chance(1, 6) { Ty::Bool } else { self.int_ty() }
     }
     fn any_ty(&mut self, depth: u32) -> Ty {
@@ -594,7 +1048,7 @@ impl<'a> Gen<'a> {
                 Ty::Arr(n, Box::new(e))
             }
             2 if depth > 0 => Ty::Opt(Box::new(self.scalar_ty())),
-            3 | 4 if !self.structs.is_empty() => Ty::Struct(self.rng.below(self.structs.len() as u64) as usize),
+            3 | 4 if !self.plain_structs.is_empty() => Ty::Struct(*self.rng.pick(&self.plain_structs.clone())),
             5 if !self.enums.is_empty() => Ty::Enum(self.rng.below(self.enums.len() as u64) as usize),
             6 if depth > 0 => {
                 // error union: the error side is bool or an enum, the ok side an integer
@@ -631,9 +1085,576 @@ impl<'a> Gen<'a> {
         self.vars.iter().filter(|v| &v.ty == t).cloned().collect()
     }
 
+    // ---- pointers and slices ------------------------------------------------------------
+    //
+    // Lifetime discipline (so that no pointer outlives its pointee; C01 is about defined
+    // behaviour only): every pointer-carrying *value* built for a destination of block depth
+    // `limit` mentions only variables of depth <= limit (both in `^place` and when an existing
+    // pointer variable is copied). Pointee types never contain pointers, functions never return
+    // pointer-carrying types, and pointer-carrying values are never written through a pointer.
+
+    fn char_lit(&mut self) -> Expr {
+        let set = b"abcdefghijklmnopqrstuvwxyzABCDEFGHIJKLMNOPQRSTUVWXYZ0123456789";
+        Expr::CharLit(*self.rng.pick(set))
+    }
+
+    /// an in-range literal index
+    fn lit_index(&mut self, n: u32) -> Expr {
+        Expr::Lit(Ty::Int(false, 64), self.rng.below(n.max(1) as u64) as i128)
+    }
+
+    /// an index into the slice variable `v`: a literal below its minimum length, a run-time value
+    /// reduced modulo `.len`, or (rarely, in main) a literal that may be out of bounds
+    fn slice_index(&mut self, v: &VarInfo, depth: u32) -> Expr {
+        let ut = Ty::Int(false, 64);
+        match self.rng.below(10) {
+            0..=4 => self.lit_index(v.min_len),
+            5..=7 if depth > 0 => {
+                let a = self.expr(&ut, depth.saturating_sub(1).min(1));
+                Expr::Bin(BinOp::Rem, ut.clone(), Box::new(a), Box::new(Expr::Len(Box::new(Expr::Var(v.id)))))
+            }
+            _ => {
+                if self.cfg.faults && self.fault_budget > 0 && self.rng.chance(1, 2) {
+                    self.fault_budget -= 1;
+                    self.slice_oob = true;
+                    Expr::Lit(ut, self.rng.below(v.min_len as u64 + 5) as i128)
+                } else {
+                    self.lit_index(v.min_len)
+                }
+            }
+        }
+    }
+
+    /// all places of exactly type `t` reachable from variables of depth <= `limit` (through fields,
+    /// in-range literal indices, `^mut`/`^` pointers and slices); `need_mut`: assignable ones only
+    fn places_of_type(&mut self, t: &Ty, need_mut: bool, limit: u32) -> Vec<Place> {
+        let mut out = vec![];
+        let vars = self.vars.clone();
+        for v in &vars {
+            if v.depth > limit {
+                continue;
+            }
+            // (root place, its type, writable)
+            let mut roots: Vec<(Place, Ty, bool)> = vec![];
+            match &v.ty {
+                Ty::Ptr(pm, inner) => roots.push((Place::Deref(Box::new(Expr::Var(v.id))), (**inner).clone(), *pm)),
+                Ty::Slice(e) => {
+                    let i = self.lit_index(v.min_len);
+                    roots.push((Place::Index(Box::new(Place::Var(v.id)), Box::new(i)), (**e).clone(), v.writable_slice && v.mutable));
+                }
+                _ => roots.push((Place::Var(v.id), v.ty.clone(), v.mutable && !v.reserved)),
+            }
+            if let Ty::Struct(id) = &v.ty {
+                // pointer fields of a struct variable
+                for (k, ft) in self.structs[*id].fields.clone().iter().enumerate() {
+                    if let Ty::Ptr(pm, inner) = ft {
+                        roots.push((Place::Deref(Box::new(Expr::Field(Box::new(Expr::Var(v.id)), k))), (**inner).clone(), *pm));
+                    }
+                }
+            }
+            for (root, rt, w) in roots {
+                if need_mut && !w {
+                    continue;
+                }
+                if &rt == t {
+                    out.push(root.clone());
+                }
+                match &rt {
+                    Ty::Arr(n, e) if &**e == t => {
+                        let i = self.lit_index(*n);
+                        out.push(Place::Index(Box::new(root.clone()), Box::new(i)));
+                    }
+                    Ty::Struct(id) => {
+                        for (k, ft) in self.structs[*id].fields.clone().iter().enumerate() {
+                            if ft == t {
+                                out.push(Place::Field(Box::new(root.clone()), k));
+                            } else if let Ty::Arr(n, e) = ft {
+                                if &**e == t {
+                                    let i = self.lit_index(*n);
+                                    out.push(Place::Index(Box::new(Place::Field(Box::new(root.clone()), k)), Box::new(i)));
+                                }
+                            }
+                        }
+                    }
+                    _ => {}
+                }
+            }
+        }
+        out
+    }
+
+    /// a value of type `^T` / `^mut T` for a destination of depth `limit`
+    fn ptr_expr(&mut self, m: bool, inner: &Ty, limit: u32) -> Option<Expr> {
+        let mut cands: Vec<Expr> = vec![];
+        let vars = self.vars.clone();
+        for v in &vars {
+            if v.depth > limit {
+                continue;
+            }
+            let fits = |t: &Ty| matches!(t, Ty::Ptr(pm, i) if &**i == inner && (*pm || !m));
+            if fits(&v.ty) {
+                cands.push(Expr::Var(v.id));
+            }
+            if let Ty::Struct(id) = &v.ty {
+                for (k, ft) in self.structs[*id].fields.iter().enumerate() {
+                    if fits(ft) {
+                        cands.push(Expr::Field(Box::new(Expr::Var(v.id)), k));
+                    }
+                }
+            }
+        }
+        let places = self.places_of_type(inner, m, limit);
+        // taking a fresh address is the common case
+        if !places.is_empty() && (cands.is_empty() || self.rng.chance(2, 3)) {
+            let p = self.rng.pick(&places).clone();
+            return Some(Expr::AddrOf(m, Box::new(p)));
+        }
+        if cands.is_empty() {
+            return None;
+        }
+        Some(self.rng.pick(&cands).clone())
+    }
+
+    /// a value of type `[]elem` (and the length of the array it is made from, a lower bound when it
+    /// is a copy of a slice variable); `writable`: over a mutable array
+    fn slice_expr(&mut self, elem: &Ty, writable: bool, min_len: u32, limit: u32) -> Option<(Expr, u32)> {
+        let mut cands: Vec<(Expr, u32)> = vec![];
+        let vars = self.vars.clone();
+        for v in &vars {
+            if v.depth > limit {
+                continue;
+            }
+            if let Ty::Slice(e) = &v.ty {
+                if &**e == elem && (!writable || v.writable_slice) && v.min_len >= min_len {
+                    cands.push((Expr::Var(v.id), v.min_len));
+                }
+            }
+        }
+        for n in min_len.max(1)..=4 {
+            let at = Ty::Arr(n, Box::new(elem.clone()));
+            for p in self.places_of_type(&at, writable, limit) {
+                cands.push((Expr::SliceOf(Box::new(p)), n));
+            }
+        }
+        if cands.is_empty() {
+            return None;
+        }
+        Some(self.rng.pick(&cands).clone())
+    }
+
+    /// an expression of a type that may carry pointers, for a destination of depth `limit`;
+    /// `None` when nothing suitable is in scope
+    fn try_expr(&mut self, t: &Ty, depth: u32, limit: u32) -> Option<Expr> {
+        if !t.has_ptr(&self.structs) {
+            return Some(self.expr(t, depth));
+        }
+        match t {
+            Ty::Ptr(m, inner) => self.ptr_expr(*m, inner, limit),
+            Ty::Slice(e) => self.slice_expr(e, false, 1, limit).map(|x| x.0),
+            Ty::Opt(p) => {
+                let vs: Vec<VarInfo> = self.vars_of(t).into_iter().filter(|v| v.depth <= limit).collect();
+                if !vs.is_empty() && self.rng.chance(1, 3) {
+                    return Some(Expr::Var(self.rng.pick(&vs).id));
+                }
+                if self.rng.chance(1, 4) {
+                    return Some(Expr::Nil);
+                }
+                Some(match self.try_expr(p, depth, limit) {
+                    Some(e) => Expr::SomeE(Box::new(e)),
+                    None => Expr::Nil,
+                })
+            }
+            Ty::Struct(id) => {
+                let vs: Vec<VarInfo> = self.vars_of(t).into_iter().filter(|v| v.depth <= limit).collect();
+                if !vs.is_empty() && self.rng.chance(1, 3) {
+                    return Some(Expr::Var(self.rng.pick(&vs).id));
+                }
+                let fields = self.structs[*id].fields.clone();
+                let d = depth.saturating_sub(1);
+                let mut es = vec![];
+                for ft in &fields {
+                    es.push(self.try_expr(ft, d, limit)?);
+                }
+                Some(Expr::StructLit(*id, es))
+            }
+            _ => None,
+        }
+    }
+
+    /// reads through pointers and slices that yield a value of type `t`
+    fn mem_reads(&mut self, t: &Ty, depth: u32) -> Vec<Expr> {
+        let mut cands: Vec<Expr> = vec![];
+        let vars = self.vars.clone();
+        for v in &vars {
+            let mut roots: Vec<(Expr, Ty)> = vec![];
+            match &v.ty {
+                Ty::Ptr(_, inner) => roots.push((Expr::Deref(Box::new(Expr::Var(v.id))), (**inner).clone())),
+                Ty::Slice(e) => {
+                    let i = self.slice_index(v, depth);
+                    roots.push((Expr::Index(Box::new(Expr::Var(v.id)), Box::new(i)), (**e).clone()));
+                    if *t == Ty::Int(false, 64) {
+                        cands.push(Expr::Len(Box::new(Expr::Var(v.id))));
+                    }
+                }
+                Ty::Struct(id) => {
+                    for (k, ft) in self.structs[*id].fields.clone().iter().enumerate() {
+                        if let Ty::Ptr(_, inner) = ft {
+                            roots.push((Expr::Deref(Box::new(Expr::Field(Box::new(Expr::Var(v.id)), k))), (**inner).clone()));
+                        }
+                    }
+                }
+                _ => {}
+            }
+            for (root, rt) in roots {
+                if &rt == t {
+                    cands.push(root.clone());
+                }
+                match &rt {
+                    Ty::Arr(n, e) if &**e == t => {
+                        let i = self.index_expr(*n, depth);
+                        cands.push(Expr::Index(Box::new(root.clone()), Box::new(i)));
+                    }
+                    Ty::Struct(id) => {
+                        for (k, ft) in self.structs[*id].fields.clone().iter().enumerate() {
+                            if ft == t {
+                                cands.push(Expr::Field(Box::new(root.clone()), k));
+                            }
+                        }
+                    }
+                    _ => {}
+                }
+            }
+        }
+        cands
+    }
+
+    fn has_mem_vars(&self) -> bool {
+        self.vars.iter().any(|v| matches!(v.ty, Ty::Ptr(..) | Ty::Slice(_)) || v.ty.has_ptr(&self.structs))
+    }
+
+    /// make sure a place of type `inner` (assignable if `m`) is in scope, declaring a local if needed
+    fn ensure_place(&mut self, inner: &Ty, m: bool, depth: u32, out: &mut Vec<Stmt>) {
+        if self.places_of_type(inner, m, u32::MAX).is_empty() || self.rng.chance(1, 4) {
+            let id = self.fresh_var();
+            let init = self.expr(inner, 1);
+            out.push(Stmt::Let(id, inner.clone(), true, init));
+            self.vars.push(vinfo(id, inner.clone(), true, false, depth));
+        }
+    }
+
+    /// declarations of pointers / slices / optional pointers / pointer-carrying structs
+    fn mem_let(&mut self, depth: u32, out: &mut Vec<Stmt>) -> bool {
+        let edepth = 2.min(self.cfg.max_depth);
+        let have_ptr_structs = self.plain_structs.len() < self.structs.len();
+        let roll = match self.rng.below(20) {
+            0..=7 => 0,
+            8..=11 => 5,
+            12 | 13 => 7,
+            14..=16 => if have_ptr_structs { 8 } else { 0 },
+            _ => 9,
+        };
+        match roll {
+            0..=4 => {
+                // p : ^mut T : ^mut place   |   p : ^T = ^place
+                let cands: Vec<VarInfo> = self.vars.iter().filter(|v| !v.ty.has_ptr(&self.structs) && !matches!(v.ty, Ty::FnPtr(..))).cloned().collect();
+                if cands.is_empty() {
+                    return false;
+                }
+                let v = self.rng.pick(&cands).clone();
+                // a sub-place of v
+                let mut t = v.ty.clone();
+                let mut p = Place::Var(v.id);
+                for _ in 0..2 {
+                    match t.clone() {
+                        Ty::Arr(n, e) if self.rng.chance(2, 3) => {
+                            let i = self.lit_index(n);
+                            p = Place::Index(Box::new(p), Box::new(i));
+                            t = *e;
+                        }
+                        Ty::Struct(id) if self.rng.chance(2, 3) => {
+                            let fields = self.structs[id].fields.clone();
+                            let k = self.rng.below(fields.len() as u64) as usize;
+                            p = Place::Field(Box::new(p), k);
+                            t = fields[k].clone();
+                        }
+                        _ => break,
+                    }
+                }
+                let m = v.mutable && !v.reserved && self.rng.chance(3, 4);
+                let pt = Ty::Ptr(m, Box::new(t));
+                let id = self.fresh_var();
+                let vm = self.rng.chance(1, 3);
+                out.push(Stmt::Let(id, pt.clone(), vm, Expr::AddrOf(m, Box::new(p))));
+                self.vars.push(vinfo(id, pt, vm, false, depth));
+                true
+            }
+            5 | 6 => {
+                // s : []T = array place
+                let elem = self.scalar_ty();
+                let elems: Vec<Ty> = self
+                    .vars
+                    .iter()
+                    .filter_map(|v| match &v.ty {
+                        Ty::Arr(_, e) if !e.has_ptr(&self.structs) => Some((**e).clone()),
+                        _ => None,
+                    })
+                    .collect();
+                let elem = if elems.is_empty() { elem } else { self.rng.pick(&elems).clone() };
+                let mut writable = self.rng.chance(2, 3);
+                let mut got = self.slice_expr(&elem, writable, 1, u32::MAX);
+                if got.is_none() && writable {
+                    writable = false;
+                    got = self.slice_expr(&elem, false, 1, u32::MAX);
+                }
+                if got.is_none() {
+                    // no array in scope: make one
+                    let n = 1 + self.rng.below(4) as u32;
+                    let at = Ty::Arr(n, Box::new(elem.clone()));
+                    let aid = self.fresh_var();
+                    let init = self.expr(&at, 1);
+                    out.push(Stmt::Let(aid, at.clone(), true, init));
+                    self.vars.push(vinfo(aid, at, true, false, depth));
+                    writable = self.rng.chance(2, 3);
+                    got = Some((Expr::SliceOf(Box::new(Place::Var(aid))), n));
+                }
+                let Some((e, n)) = got else { return false };
+                let wr = match &e {
+                    Expr::SliceOf(_) => writable,
+                    Expr::Var(x) => self.vars.iter().any(|v| v.id == *x && v.writable_slice),
+                    _ => false,
+                };
+                let m = wr || self.rng.chance(1, 3);
+                let st = Ty::Slice(Box::new(elem));
+                let id = self.fresh_var();
+                out.push(Stmt::Let(id, st.clone(), m, e));
+                let mut vi = vinfo(id, st, m, false, depth);
+                vi.writable_slice = wr && m;
+                vi.min_len = n;
+                if !m && matches!(out.last(), Some(Stmt::Let(_, _, _, Expr::SliceOf(_)))) {
+                    vi.exact_len = Some(n);
+                }
+                self.vars.push(vi);
+                true
+            }
+            7 => {
+                // o : ?^mut T = p / nil
+                let ptrs: Vec<VarInfo> = self.vars.iter().filter(|v| matches!(v.ty, Ty::Ptr(..))).cloned().collect();
+                let pty = if ptrs.is_empty() {
+                    let inner = self.int_ty();
+                    let m = self.rng.chance(2, 3);
+                    self.ensure_place(&inner, m, depth, out);
+                    Ty::Ptr(m, Box::new(inner))
+                } else {
+                    self.rng.pick(&ptrs).ty.clone()
+                };
+                let ot = Ty::Opt(Box::new(pty));
+                let Some(e) = self.try_expr(&ot, edepth, u32::MAX) else { return false };
+                let id = self.fresh_var();
+                let m = self.rng.chance(1, 2);
+                out.push(Stmt::Let(id, ot.clone(), m, e));
+                self.vars.push(vinfo(id, ot, m, false, depth));
+                true
+            }
+            8 => {
+                // a struct with pointer fields
+                let ptr_structs: Vec<usize> = (0..self.structs.len()).filter(|i| !self.plain_structs.contains(i)).collect();
+                if ptr_structs.is_empty() {
+                    return false;
+                }
+                let sid = *self.rng.pick(&ptr_structs);
+                let t = Ty::Struct(sid);
+                for ft in self.structs[sid].fields.clone() {
+                    if let Ty::Ptr(m, inner) = ft {
+                        self.ensure_place(&inner, m, depth, out);
+                    }
+                }
+                let Some(e) = self.try_expr(&t, edepth, u32::MAX) else { return false };
+                let id = self.fresh_var();
+                let m = self.rng.chance(2, 3);
+                out.push(Stmt::Let(id, t.clone(), m, e));
+                self.vars.push(vinfo(id, t, m, false, depth));
+                true
+            }
+            _ => self.alias_burst(depth, out),
+        }
+    }
+
+    /// two names for one cell, used alternately: `p := ^mut x; p^ = a; print(x); x += b; print(p^);
+    /// q := p; q^ = c; print(p^); print(x)`
+    fn alias_burst(&mut self, depth: u32, out: &mut Vec<Stmt>) -> bool {
+        let cands: Vec<VarInfo> = self.vars.iter().filter(|v| v.mutable && !v.reserved && v.ty.is_int()).cloned().collect();
+        if cands.is_empty() {
+            return false;
+        }
+        let x = self.rng.pick(&cands).clone();
+        let t = x.ty.clone();
+        let pt = Ty::Ptr(true, Box::new(t.clone()));
+        let p = self.fresh_var();
+        out.push(Stmt::Let(p, pt.clone(), false, Expr::AddrOf(true, Box::new(Place::Var(x.id)))));
+        self.vars.push(vinfo(p, pt.clone(), false, false, depth));
+        let a = self.expr(&t, 1);
+        out.push(Stmt::Assign(Place::Deref(Box::new(Expr::Var(p))), a));
+        out.push(Stmt::Print(Expr::Var(x.id)));
+        let b = self.expr(&t, 1);
+        out.push(Stmt::OpAssign(BinOp::Add, t.clone(), Place::Var(x.id), b));
+        out.push(Stmt::Print(Expr::Deref(Box::new(Expr::Var(p)))));
+        if self.rng.chance(1, 2) {
+            let q = self.fresh_var();
+            out.push(Stmt::Let(q, pt.clone(), false, Expr::Var(p)));
+            self.vars.push(vinfo(q, pt, false, false, depth));
+            let c = self.expr(&t, 1);
+            out.push(Stmt::OpAssign(BinOp::Xor, t.clone(), Place::Deref(Box::new(Expr::Var(q))), c));
+            out.push(Stmt::Print(Expr::Deref(Box::new(Expr::Var(p)))));
+            out.push(Stmt::Print(Expr::Var(x.id)));
+        }
+        true
+    }
+
+    /// arguments for a call of `f`; the recursion counter (if any) gets a small literal
+    fn call_args(&mut self, f: Option<usize>, ps: &[Ty], d: u32) -> Option<Vec<Expr>> {
+        let rec = f.and_then(|f| self.rec_param.get(&f).copied());
+        let mut args = vec![];
+        for (j, p) in ps.iter().enumerate() {
+            if Some(j) == rec {
+                args.push(Expr::Lit(p.clone(), self.rng.below(3) as i128));
+                continue;
+            }
+            // arguments may refer to anything in scope: the callee cannot keep a pointer
+            args.push(self.try_expr(p, d, u32::MAX)?);
+        }
+        Some(args)
+    }
+
+    /// `v : (p0: T0, ..) -> R = fK;` — a function stored in a local
+    fn fn_let(&mut self, depth: u32, out: &mut Vec<Stmt>) -> bool {
+        let c: Vec<(usize, Vec<Ty>, Ty)> = self.sigs.iter().filter(|s| !self.rec_param.contains_key(&s.0)).cloned().collect();
+        if c.is_empty() {
+            return false;
+        }
+        let (f, ps, r) = self.rng.pick(&c).clone();
+        let t = Ty::FnPtr(ps, Box::new(r));
+        let id = self.fresh_var();
+        let m = self.rng.chance(1, 3);
+        out.push(Stmt::Let(id, t.clone(), m, Expr::FnRef(f)));
+        self.vars.push(vinfo(id, t.clone(), m, false, depth));
+        // … and usually called through it right away (later calls come from `call_or`/`call_stmt`)
+        if let (Ty::FnPtr(ps, r), true) = (&t, self.rng.chance(3, 4)) {
+            if let Some(args) = self.call_args(None, ps, 1) {
+                let call = Expr::CallV(Box::new(Expr::Var(id)), args);
+                match &**r {
+                    Ty::Void => out.push(Stmt::ExprS(call)),
+                    Ty::Int(..) | Ty::Bool | Ty::Char => out.push(Stmt::Print(call)),
+                    rt => {
+                        let rid = self.fresh_var();
+                        out.push(Stmt::Let(rid, rt.clone(), false, call));
+                        self.vars.push(vinfo(rid, rt.clone(), false, false, depth));
+                    }
+                }
+            }
+        }
+        true
+    }
+
+    /// `if cnt > 0 { self(cnt - 1, ..) }`: the function being generated calls itself
+    fn self_call(&mut self, depth: u32, out: &mut Vec<Stmt>) -> bool {
+        let Some((f, ps, ret, cnt)) = self.self_fn.clone() else { return false };
+        let j = self.rec_param[&f];
+        let ct = ps[j].clone();
+        let mut args = vec![];
+        for (i, p) in ps.iter().enumerate() {
+            if i == j {
+                args.push(Expr::Bin(BinOp::Sub, ct.clone(), Box::new(Expr::Var(cnt)), Box::new(Expr::Lit(ct.clone(), 1))));
+            } else {
+                match self.try_expr(p, 1, u32::MAX) {
+                    Some(e) => args.push(e),
+                    None => return false,
+                }
+            }
+        }
+        let call = Expr::Call(f, args);
+        let inner = match &ret {
+            Ty::Void => Stmt::ExprS(call),
+            Ty::Int(..) | Ty::Bool | Ty::Char => Stmt::Print(call),
+            t => Stmt::Let(self.fresh_var(), t.clone(), false, call),
+        };
+        let _ = depth;
+        let cond = Expr::Cmp(CmpOp::Gt, ct.clone(), Box::new(Expr::Var(cnt)), Box::new(Expr::Lit(ct, 0)));
+        out.push(Stmt::If(cond, vec![inner], vec![]));
+        self.self_called = true;
+        true
+    }
+
+    /// a call statement (the only way `void` functions — typically writers through `^mut`
+    /// parameters — are called)
+    fn call_stmt(&mut self, depth: u32, out: &mut Vec<Stmt>) -> bool {
+        if self.sigs.is_empty() {
+            return false;
+        }
+        let with_ptr: Vec<(usize, Vec<Ty>, Ty)> = self.sigs.iter().filter(|s| s.1.iter().any(|t| t.has_ptr(&self.structs))).cloned().collect();
+        let (f, ps, ret) = if !with_ptr.is_empty() && self.rng.chance(3, 4) { self.rng.pick(&with_ptr).clone() } else { self.rng.pick(&self.sigs.clone()).clone() };
+        let mut args = vec![];
+        let mut after: Vec<Stmt> = vec![];
+        let rec = self.rec_param.get(&f).copied();
+        for (j, p) in ps.iter().enumerate() {
+            if Some(j) == rec {
+                args.push(Expr::Lit(p.clone(), self.rng.below(3) as i128));
+                continue;
+            }
+            // a fresh local as the pointee (always possible), or whatever is in scope
+            match p {
+                Ty::Ptr(m, inner) if self.rng.chance(1, 2) || self.places_of_type(inner, *m, u32::MAX).is_empty() => {
+                    let id = self.fresh_var();
+                    let init = self.expr(inner, 1);
+                    out.push(Stmt::Let(id, (**inner).clone(), true, init));
+                    self.vars.push(vinfo(id, (**inner).clone(), true, false, depth));
+                    args.push(Expr::AddrOf(*m, Box::new(Place::Var(id))));
+                    if matches!(**inner, Ty::Int(..) | Ty::Bool) {
+                        after.push(Stmt::Print(Expr::Var(id)));
+                    }
+                    continue;
+                }
+                Ty::Slice(el) if self.slice_expr(el, false, 1, u32::MAX).is_none() => {
+                    let n = 1 + self.rng.below(4) as u32;
+                    let at = Ty::Arr(n, el.clone());
+                    let id = self.fresh_var();
+                    let init = self.expr(&at, 1);
+                    out.push(Stmt::Let(id, at.clone(), true, init));
+                    self.vars.push(vinfo(id, at, true, false, depth));
+                    args.push(Expr::SliceOf(Box::new(Place::Var(id))));
+                    continue;
+                }
+                _ => {}
+            }
+            match self.try_expr(p, 1, u32::MAX) {
+                Some(e) => args.push(e),
+                None => return false,
+            }
+        }
+        // sometimes through a function-valued local of that signature
+        let fv: Vec<usize> = self.vars.iter().filter(|v| matches!(&v.ty, Ty::FnPtr(p2, r2) if p2 == &ps && **r2 == ret)).map(|v| v.id).collect();
+        let call = if rec.is_none() && !fv.is_empty() && self.rng.chance(1, 2) { Expr::CallV(Box::new(Expr::Var(*self.rng.pick(&fv))), args) } else { Expr::Call(f, args) };
+        match &ret {
+            Ty::Void => out.push(Stmt::ExprS(call)),
+            Ty::Int(..) | Ty::Bool | Ty::Char => out.push(Stmt::Print(call)),
+            t => {
+                let id = self.fresh_var();
+                out.push(Stmt::Let(id, t.clone(), false, call));
+                self.vars.push(vinfo(id, t.clone(), false, false, depth));
+            }
+        }
+        out.extend(after);
+        true
+    }
+
     /// an expression of type `t`
     fn expr(&mut self, t: &Ty, depth: u32) -> Expr {
         let leaf = depth == 0 || self.rng.chance(1, 4);
+        if self.cfg.pointers && !leaf && matches!(t, Ty::Int(..) | Ty::Bool | Ty::Char) && self.has_mem_vars() && self.rng.chance(1, 4) {
+            let c = self.mem_reads(t, depth);
+            if !c.is_empty() {
+                return self.rng.pick(&c).clone();
+            }
+        }
         match t {
             Ty::Int(..) => {
                 if leaf {
@@ -698,6 +1719,13 @@ impl<'a> Gen<'a> {
                     }
                     return Expr::BLit(self.rng.chance(1, 2));
                 }
+                if self.cfg.chars && self.rng.chance(1, 40) {
+                    // `char` supports `==` and `!=` only
+                    let op = *self.rng.pick(&[CmpOp::Eq, CmpOp::Ne]);
+                    let a = self.expr(&Ty::Char, depth - 1);
+                    let b = self.expr(&Ty::Char, depth - 1);
+                    return Expr::Cmp(op, Ty::Char, Box::new(a), Box::new(b));
+                }
                 match self.rng.below(8) {
                     0..=3 => {
                         let it = self.int_ty();
@@ -729,6 +1757,11 @@ impl<'a> Gen<'a> {
                 }
             }
             Ty::Arr(n, e) => {
+                // `[N]T.(slice)`: the copy of the elements a slice of exactly that length refers to
+                let exact: Vec<usize> = self.vars.iter().filter(|v| v.exact_len == Some(*n) && v.ty == Ty::Slice(e.clone())).map(|v| v.id).collect();
+                if self.cfg.pointers && !exact.is_empty() && self.rng.chance(1, 3) {
+                    return Expr::SliceToArr(*n, (**e).clone(), Box::new(Expr::Var(*self.rng.pick(&exact))));
+                }
                 let vs = self.vars_of(t);
                 if !vs.is_empty() && self.rng.chance(1, 2) {
                     return Expr::Var(self.rng.pick(&vs).id);
@@ -739,6 +1772,7 @@ impl<'a> Gen<'a> {
                 let d = depth.saturating_sub(1);
                 Expr::ArrLit((**e).clone(), (0..*n).map(|_| self.expr(e, d)).collect())
             }
+            Ty::Struct(_) | Ty::Opt(_) if t.has_ptr(&self.structs) => self.try_expr(t, depth, 0).unwrap_or(Expr::Nil),
             Ty::Struct(id) => {
                 let vs = self.vars_of(t);
                 if !vs.is_empty() && self.rng.chance(1, 2) {
@@ -795,6 +1829,43 @@ impl<'a> Gen<'a> {
                 }
             }
             Ty::Void => Expr::BLit(false),
+            // pointer-carrying types are only requested through `try_expr` (which knows the
+            // destination's lifetime); reaching this is a generator bug, made visible as a rejection
+            Ty::Ptr(..) | Ty::Slice(_) => self.try_expr(t, depth, 0).unwrap_or(Expr::Nil),
+            Ty::Char => {
+                let vs = self.vars_of(t);
+                if !vs.is_empty() && self.rng.chance(2, 5) {
+                    return Expr::Var(self.rng.pick(&vs).id);
+                }
+                if leaf {
+                    return self.char_lit();
+                }
+                match self.rng.below(6) {
+                    0 | 1 => {
+                        // a printable character computed from an integer: base + (e % span)
+                        let (base, span) = *self.rng.pick(&[(65i128, 26i128), (97, 26), (48, 10)]);
+                        let u8t = Ty::Int(false, 8);
+                        let e = self.expr(&u8t, depth - 1);
+                        let off = Expr::Bin(BinOp::Rem, u8t.clone(), Box::new(e), Box::new(Expr::Lit(u8t.clone(), span)));
+                        let sum = Expr::Bin(BinOp::Add, u8t.clone(), Box::new(Expr::Lit(u8t.clone(), base)), Box::new(off));
+                        Expr::Cast(u8t, Ty::Char, Box::new(sum))
+                    }
+                    2 => self.call_or(t, depth),
+                    3 => self.element_of(t, depth),
+                    4 => {
+                        let c = self.expr(&Ty::Bool, depth - 1);
+                        let a = self.expr(t, depth - 1);
+                        let b = self.expr(t, depth - 1);
+                        Expr::Ite(Box::new(c), Box::new(a), Box::new(b))
+                    }
+                    _ => self.char_lit(),
+                }
+            }
+            Ty::FnPtr(ps, r) => {
+                // a function of that signature (one exists: the type was made from one)
+                let c: Vec<usize> = self.sigs.iter().filter(|s| &s.1 == ps && s.2 == **r && !self.rec_param.contains_key(&s.0)).map(|s| s.0).collect();
+                if c.is_empty() { Expr::Nil } else { Expr::FnRef(*self.rng.pick(&c)) }
+            }
         }
     }
 
@@ -826,9 +1897,9 @@ impl<'a> Gen<'a> {
                         // the argument has the VARIANT type; a plain copy is made with a cast
                         let c = self.fresh_var();
                         pre.push(Stmt::Let(c, pt.clone(), false, Expr::Coerce(pt.clone(), Box::new(Expr::Var(a)))));
-                        self.vars.push(VarInfo { id: c, ty: pt.clone(), mutable: false, reserved: false });
+                        self.vars.push(vinfo(c, pt.clone(), false, false, depth + 1));
                     } else {
-                        self.vars.push(VarInfo { id: a, ty: pt.clone(), mutable: false, reserved: false });
+                        self.vars.push(vinfo(a, pt.clone(), false, false, depth + 1));
                     }
                 }
                 let mut body = pre;
@@ -840,7 +1911,7 @@ impl<'a> Gen<'a> {
         let default = if covered < payloads.len() || self.rng.chance(1, 5) {
             let saved = self.vars.len();
             if let Some(a) = arg {
-                self.vars.push(VarInfo { id: a, ty: v.ty.clone(), mutable: false, reserved: false });
+                self.vars.push(vinfo(a, v.ty.clone(), false, false, depth + 1));
             }
             let body = self.stmts(depth + 1, budget);
             self.vars.truncate(saved);
@@ -855,13 +1926,26 @@ impl<'a> Gen<'a> {
     }
 
     fn call_or(&mut self, t: &Ty, depth: u32) -> Expr {
+        let d = depth.saturating_sub(1);
+        // through a function-valued local
+        let fvars: Vec<VarInfo> = self.vars.iter().filter(|v| matches!(&v.ty, Ty::FnPtr(_, r) if &**r == t)).cloned().collect();
+        if !fvars.is_empty() && self.rng.chance(1, 2) {
+            let v = self.rng.pick(&fvars).clone();
+            if let Ty::FnPtr(ps, _) = &v.ty {
+                if let Some(args) = self.call_args(None, ps, d) {
+                    return Expr::CallV(Box::new(Expr::Var(v.id)), args);
+                }
+            }
+        }
         let cands: Vec<(usize, Vec<Ty>, Ty)> = self.sigs.iter().filter(|s| &s.2 == t).cloned().collect();
         if cands.is_empty() {
             return self.expr(t, 0);
         }
         let (f, ps, _) = self.rng.pick(&cands).clone();
-        let d = depth.saturating_sub(1);
-        Expr::Call(f, ps.iter().map(|p| self.expr(p, d)).collect())
+        match self.call_args(Some(f), &ps, d) {
+            Some(args) => Expr::Call(f, args),
+            None => self.expr(t, 0),
+        }
     }
 
     /// index into an array variable / field of a struct variable yielding `t`
@@ -916,7 +2000,7 @@ impl<'a> Gen<'a> {
                 Expr::Bin(BinOp::Rem, ut.clone(), Box::new(a), Box::new(Expr::Lit(ut, n as i128)))
             }
             _ => {
-                if self.cfg.faults && self.fault_budget > 0 && self.rng.chance(1, 3) {
+                if self.cfg.faults && self.fault_budget > 0 && self.rng.chance(2, 3) {
                     self.fault_budget -= 1;
                     // runtime index in [0, n + 4]
                     let vs = self.vars_of(&ut);
@@ -972,15 +2056,52 @@ impl<'a> Gen<'a> {
         self.lit(t)
     }
 
-    /// an assignable place and its type
-    fn place(&mut self, depth: u32) -> Option<(Place, Ty)> {
-        let muts: Vec<VarInfo> = self.vars.iter().filter(|v| v.mutable && !v.reserved).cloned().collect();
-        if muts.is_empty() {
+    /// an assignable place through a `^mut` pointer (variable or struct field) or a writable slice
+    fn mem_place_root(&mut self, depth: u32) -> Option<(Place, Ty)> {
+        let mut roots: Vec<(Place, Ty)> = vec![];
+        let vars = self.vars.clone();
+        for v in &vars {
+            match &v.ty {
+                Ty::Ptr(true, inner) => roots.push((Place::Deref(Box::new(Expr::Var(v.id))), (**inner).clone())),
+                Ty::Slice(e) if v.writable_slice && v.mutable => {
+                    let i = self.slice_index(v, depth);
+                    roots.push((Place::Index(Box::new(Place::Var(v.id)), Box::new(i)), (**e).clone()));
+                }
+                Ty::Struct(id) => {
+                    for (k, ft) in self.structs[*id].fields.clone().iter().enumerate() {
+                        if let Ty::Ptr(true, inner) = ft {
+                            roots.push((Place::Deref(Box::new(Expr::Field(Box::new(Expr::Var(v.id)), k))), (**inner).clone()));
+                        }
+                    }
+                }
+                _ => {}
+            }
+        }
+        if roots.is_empty() {
             return None;
         }
-        let v = self.rng.pick(&muts).clone();
-        let mut p = Place::Var(v.id);
-        let mut t = v.ty.clone();
+        // writes through slices are the rarer kind: prefer them sometimes
+        let sl: Vec<(Place, Ty)> = roots.iter().filter(|r| matches!(r.0, Place::Index(..))).cloned().collect();
+        if !sl.is_empty() && self.rng.chance(1, 3) {
+            return Some(self.rng.pick(&sl).clone());
+        }
+        Some(self.rng.pick(&roots).clone())
+    }
+
+    /// an assignable place, its type, and the depth bound for pointer-carrying values stored there
+    fn place(&mut self, depth: u32) -> Option<(Place, Ty, u32)> {
+        let muts: Vec<VarInfo> = self.vars.iter().filter(|v| v.mutable && !v.reserved).cloned().collect();
+        let mem = if self.cfg.pointers && (muts.is_empty() || self.rng.chance(2, 5)) { self.mem_place_root(depth) } else { None };
+        let (mut p, mut t, limit) = match mem {
+            Some((p, t)) => (p, t, 0),
+            None => {
+                if muts.is_empty() {
+                    return None;
+                }
+                let v = self.rng.pick(&muts).clone();
+                (Place::Var(v.id), v.ty.clone(), v.depth)
+            }
+        };
         for _ in 0..3 {
             match t.clone() {
                 Ty::Arr(n, e) if self.rng.chance(3, 4) => {
@@ -997,7 +2118,7 @@ impl<'a> Gen<'a> {
                 _ => break,
             }
         }
-        Some((p, t))
+        Some((p, t, limit))
     }
 
     fn print_stmt(&mut self, depth: u32) -> Stmt {
@@ -1015,6 +2136,45 @@ impl<'a> Gen<'a> {
                 break;
             }
             *budget -= 1;
+            if self.cfg.pointers && self.fault_budget > 0 && self.rng.chance(1, 6) {
+                // a slice index that may be past the end (the length is a run-time value)
+                let ss: Vec<VarInfo> = self.vars.iter().filter(|v| matches!(&v.ty, Ty::Slice(e) if matches!(**e, Ty::Int(..) | Ty::Bool))).cloned().collect();
+                if !ss.is_empty() {
+                    let v = self.rng.pick(&ss).clone();
+                    self.fault_budget -= 1;
+                    self.slice_oob = true;
+                    let k = self.rng.below(v.min_len as u64 + 4) as i128;
+                    out.push(Stmt::Print(Expr::Index(Box::new(Expr::Var(v.id)), Box::new(Expr::Lit(Ty::Int(false, 64), k)))));
+                    continue;
+                }
+                // … or an array index held in a variable (a literal would be checked at compile time)
+                let arrs: Vec<VarInfo> = self.vars.iter().filter(|v| matches!(&v.ty, Ty::Arr(_, e) if matches!(**e, Ty::Int(..) | Ty::Bool))).cloned().collect();
+                if !arrs.is_empty() {
+                    let v = self.rng.pick(&arrs).clone();
+                    let n = if let Ty::Arr(n, _) = &v.ty { *n } else { 1 };
+                    self.fault_budget -= 1;
+                    let ut = Ty::Int(false, 64);
+                    let id = self.fresh_var();
+                    let k = self.rng.below(n as u64 + 3) as i128;
+                    out.push(Stmt::Let(id, ut.clone(), true, Expr::Lit(ut.clone(), k)));
+                    self.vars.push(vinfo(id, ut, true, false, depth));
+                    out.push(Stmt::Print(Expr::Index(Box::new(Expr::Var(v.id)), Box::new(Expr::Var(id)))));
+                    continue;
+                }
+            }
+            if self.cfg.recursion && depth == 0 && self.self_fn.is_some() && !self.self_called && self.rng.chance(1, 4) && self.self_call(depth, &mut out) {
+                continue;
+            }
+            if self.cfg.pointers && self.rng.chance(1, 5) {
+                let done = match self.rng.below(8) {
+                    0..=4 => self.mem_let(depth, &mut out),
+                    5 => self.fn_let(depth, &mut out),
+                    _ => self.call_stmt(depth, &mut out),
+                };
+                if done {
+                    continue;
+                }
+            }
             let c = self.rng.below(100);
             let edepth = 2.min(self.cfg.max_depth);
             if c < 22 {
@@ -1023,10 +2183,27 @@ impl<'a> Gen<'a> {
                 let id = self.fresh_var();
                 let m = self.rng.chance(2, 3);
                 out.push(Stmt::Let(id, t.clone(), m, e));
-                self.vars.push(VarInfo { id, ty: t, mutable: m, reserved: false });
+                self.vars.push(vinfo(id, t, m, false, depth));
             } else if c < 40 {
-                if let Some((p, t)) = self.place(edepth) {
-                    if t.is_int() && self.rng.chance(1, 3) {
+                if let Some((p, t, lim)) = self.place(edepth) {
+                    if t.has_ptr(&self.structs) {
+                        // a pointer-carrying destination: the value may only mention variables that
+                        // live at least as long as the destination's root
+                        let e = match (&p, &t) {
+                            (Place::Var(x), Ty::Slice(el)) => {
+                                // a slice variable keeps its facts (writable, minimum length)
+                                let v = self.vars.iter().find(|v| v.id == *x).cloned();
+                                v.and_then(|v| self.slice_expr(el, v.writable_slice, v.min_len, lim)).map(|r| r.0)
+                            }
+                            _ => self.try_expr(&t, edepth, lim),
+                        };
+                        match e {
+                            Some(e) => out.push(Stmt::Assign(p, e)),
+                            None => out.push(self.print_stmt(edepth)),
+                        }
+                    } else if t.is_int() && self.rng.chance(1, 3) && !place_has_call(&p) {
+                        // (`a[f()] += e` evaluates `f()` twice in the compiler: the place of a
+                        // compound assignment is kept free of calls)
                         let op = *self.rng.pick(&[BinOp::Add, BinOp::Sub, BinOp::Mul, BinOp::And, BinOp::Or, BinOp::Xor]);
                         let e = self.expr(&t, edepth);
                         out.push(Stmt::OpAssign(op, t, p, e));
@@ -1054,7 +2231,7 @@ impl<'a> Gen<'a> {
                 let cid = self.fresh_var();
                 let iters = 1 + self.rng.below(if depth == 0 { 6 } else { 3 }) as i128;
                 out.push(Stmt::Let(cid, ct.clone(), true, Expr::Lit(ct.clone(), iters)));
-                self.vars.push(VarInfo { id: cid, ty: ct.clone(), mutable: true, reserved: true });
+                self.vars.push(vinfo(cid, ct.clone(), true, true, depth));
                 let l = self.fresh_label();
                 self.labels.push((l, true));
                 let mut body = vec![Stmt::OpAssign(BinOp::Sub, ct.clone(), Place::Var(cid), Expr::Lit(ct.clone(), 1))];
@@ -1100,7 +2277,7 @@ impl<'a> Gen<'a> {
                             };
                             let id = self.fresh_var();
                             out.push(Stmt::Let(id, pt.clone(), false, Expr::Try(Box::new(Expr::Var(v.id)))));
-                            self.vars.push(VarInfo { id, ty: pt, mutable: false, reserved: false });
+                            self.vars.push(vinfo(id, pt, false, false, depth));
                         } else {
                             out.push(self.print_stmt(edepth));
                         }
@@ -1119,6 +2296,9 @@ impl<'a> Gen<'a> {
         self.vars.truncate(saved_vars);
         out
     }
+
+    #[allow(dead_code)]
+    fn _unused(&self) {}
 
     fn jump(&mut self) -> Stmt {
         let loops: Vec<usize> = self.labels.iter().filter(|l| l.1).map(|l| l.0).collect();
@@ -1147,6 +2327,12 @@ pub fn gen_program(rng: &mut Rng, cfg: &GenCfg) -> Program {
         labels: vec![],
         ret_ty: Ty::Void,
         fault_budget: 0,
+        plain_structs: vec![],
+        cur_depth: 0,
+        slice_oob: false,
+        rec_param: Default::default(),
+        self_fn: None,
+        self_called: false,
     };
     // structs: fields of scalars and small arrays (a later struct may contain an earlier one)
     let ns = g.rng.below(3) as usize;
@@ -1156,12 +2342,24 @@ pub fn gen_program(rng: &mut Rng, cfg: &GenCfg) -> Program {
         for _ in 0..nf {
             let t = match g.rng.below(6) {
                 0 => Ty::Arr(1 + g.rng.below(3) as u32, Box::new(g.scalar_ty())),
-                1 if !g.structs.is_empty() => Ty::Struct(g.rng.below(g.structs.len() as u64) as usize),
+                1 if !g.plain_structs.is_empty() => Ty::Struct(*g.rng.pick(&g.plain_structs.clone())),
                 _ => g.scalar_ty(),
             };
             fields.push(t);
         }
+        // a pointer field (`^mut T` / `^T` of an integer or of an earlier plain struct)
+        let mut plain = true;
+        if cfg.pointers && g.rng.chance(1, 3) {
+            let inner = if !g.plain_structs.is_empty() && g.rng.chance(1, 4) { Ty::Struct(*g.rng.pick(&g.plain_structs.clone())) } else { g.int_ty() };
+            let m = g.rng.chance(2, 3);
+            let pos = g.rng.below(fields.len() as u64 + 1) as usize;
+            fields.insert(pos, Ty::Ptr(m, Box::new(inner)));
+            plain = false;
+        }
         g.structs.push(StructDef { fields });
+        if plain {
+            g.plain_structs.push(g.structs.len() - 1);
+        }
     }
     // enums: 1-4 variants with scalar / array / struct payloads or none
     let ne = g.rng.below(3) as usize;
@@ -1171,7 +2369,7 @@ pub fn gen_program(rng: &mut Rng, cfg: &GenCfg) -> Program {
         for _ in 0..nv {
             variants.push(match g.rng.below(5) {
                 0 | 1 => None,
-                2 if !g.structs.is_empty() => Some(Ty::Struct(g.rng.below(g.structs.len() as u64) as usize)),
+                2 if !g.plain_structs.is_empty() => Some(Ty::Struct(*g.rng.pick(&g.plain_structs.clone()))),
                 3 => Some(Ty::Arr(1 + g.rng.below(3) as u32, Box::new(g.scalar_ty()))),
                 _ => Some(g.scalar_ty()),
             });
@@ -1182,21 +2380,52 @@ pub fn gen_program(rng: &mut Rng, cfg: &GenCfg) -> Program {
     let nf = g.rng.below(cfg.max_fns as u64) as usize;
     let mut fns: Vec<Option<Fn>> = vec![None; nf + 1];
     for k in (1..=nf).rev() {
-        let np = g.rng.below(4) as usize;
+        let mut np = g.rng.below(4) as usize;
         let mut params = vec![];
         g.vars.clear();
+        let recursive = cfg.recursion && g.rng.chance(1, 4);
+        let mut cnt_var = 0;
+        if recursive {
+            // the recursion counter: a `u8` parameter (callers pass 0..=2)
+            let ct = Ty::Int(false, 8);
+            cnt_var = g.fresh_var();
+            params.push((cnt_var, ct.clone()));
+            g.vars.push(vinfo(cnt_var, ct, false, true, 0));
+            g.rec_param.insert(k, 0);
+        }
         for _ in 0..np {
-            let t = g.any_ty(2);
+            let mut t = g.any_ty(2);
+            if cfg.pointers && g.rng.chance(2, 5) {
+                // `^mut T` / `^T` of a value type, a slice, or (rarely) a pointer-carrying struct by value
+                let ptr_structs: Vec<usize> = (0..g.structs.len()).filter(|i| !g.plain_structs.contains(i)).collect();
+                t = match g.rng.below(8) {
+                    0 | 1 => Ty::Slice(Box::new(g.scalar_ty())),
+                    2 if !ptr_structs.is_empty() => Ty::Struct(*g.rng.pick(&ptr_structs)),
+                    3 | 4 => Ty::Ptr(g.rng.chance(3, 4), Box::new(g.int_ty())),
+                    _ => Ty::Ptr(g.rng.chance(3, 4), Box::new(t)),
+                };
+            }
             let id = g.fresh_var();
             params.push((id, t.clone()));
-            g.vars.push(VarInfo { id, ty: t, mutable: false, reserved: false });
+            g.vars.push(vinfo(id, t, false, false, 0));
         }
         let ret = if g.rng.chance(1, 6) { Ty::Void } else { g.any_ty(1) };
         g.ret_ty = ret.clone();
         g.labels.clear();
         g.fault_budget = 0; // faults only from main, so that the expected output is a clean prefix
+        if recursive {
+            np += 1;
+            g.self_fn = Some((k, params.iter().map(|p| p.1.clone()).collect(), ret.clone(), cnt_var));
+            g.self_called = false;
+        }
         let mut budget = 12;
         let mut body = g.stmts(0, &mut budget);
+        g.vars.truncate(np);
+        if recursive && !g.self_called {
+            // with only the parameters in scope
+            g.self_call(0, &mut body);
+        }
+        g.self_fn = None;
         if ret != Ty::Void {
             g.vars.truncate(np);
             let e = g.expr(&ret, 2);
@@ -1210,7 +2439,7 @@ pub fn gen_program(rng: &mut Rng, cfg: &GenCfg) -> Program {
     g.labels.clear();
     let main_ret = if g.rng.chance(1, 5) { Ty::Void } else { g.int_ty() };
     g.ret_ty = main_ret.clone();
-    g.fault_budget = if cfg.faults && g.rng.chance(1, 4) { 1 } else { 0 };
+    g.fault_budget = if cfg.faults && g.rng.chance(1, 3) { 1 } else { 0 };
     let mut budget = 30;
     let mut body = g.stmts(0, &mut budget);
     if main_ret != Ty::Void {
@@ -1218,5 +2447,5 @@ pub fn gen_program(rng: &mut Rng, cfg: &GenCfg) -> Program {
         body.push(Stmt::Ret(Some(e)));
     }
     fns[0] = Some(Fn { params: vec![], ret: main_ret, body });
-    Program { structs: g.structs.clone(), enums: g.enums.clone(), fns: fns.into_iter().map(|f| f.unwrap()).collect() }
+    Program { structs: g.structs.clone(), enums: g.enums.clone(), fns: fns.into_iter().map(|f| f.unwrap()).collect(), slice_oob: g.slice_oob }
 }
